@@ -116,6 +116,7 @@ pub struct World {
 	pub crash_now: bool,
 	/// (event seq, when, snapshots) of the daemon's in-memory accounts
 	pub account_snaps: Vec<(u64, String, Vec<Option<super::snap::AccountSnap>>)>,
+	pub initial_global: super::plan::Global,
 }
 
 thread_local! {
@@ -147,6 +148,7 @@ impl World {
 		let seed = plan.seed ^ super::prng::splitmix64(plan.index.wrapping_add(0x51ED));
 		let faults = plan.faults.iter().map(|f| (f.clone(), 0)).collect();
 		let epoch0 = plan.world.epoch_unix;
+		let initial_global = plan.config.global.clone();
 		World {
 			plan,
 			mono: 0,
@@ -174,7 +176,12 @@ impl World {
 			crash_watch: None,
 			crash_now: false,
 			account_snaps: Vec::new(),
+			initial_global,
 		}
+	}
+
+	pub fn plan_initial_global(&self) -> super::plan::Global {
+		self.initial_global.clone()
 	}
 
 	pub fn wall_unix(&self) -> i64 {
